@@ -45,7 +45,10 @@ func universes(prop string, thorough bool) []*ledger.Universe {
 
 func runTxGraph(prop string, args []string) {
 	run := ev.NewRun(prop, "model_checking", args)
-	cfg := txgraph.Config{MaxH: 3, NIDs: 2}
+	// MaxStates only guards against a non-terminating search on a broken tree
+	// (e.g. a change that makes a no-op event grow a counter); the unchanged
+	// tree needs < 2000 states per universe. Hitting it sets exhaustive:false.
+	cfg := txgraph.Config{MaxH: 3, NIDs: 2, MaxStates: 5000}
 	switch prop {
 	case "C01":
 		cfg.C01 = true
